@@ -303,7 +303,7 @@ type IllegalCase struct {
 var illegalKinds = []string{"config-true-under-false", "config-true-under-false-deep", "config-true-in-grouping-used-under-false", "status-strengthened", "status-strengthened-deep",
 	"current-uses-deprecated-grouping", "current-type-obsolete-typedef", "deprecated-type-obsolete-typedef", "current-iffeature-deprecated-feature", "current-base-deprecated-identity",
 	"current-refine-deprecated-node", "current-uses-augment-deprecated-node", "current-augment-deprecated-node",
-	"deviate-add-existing", "deviate-delete-missing", "deviate-delete-wrong-value", "deviate-replace-missing", "not-supported-plus-other", "deviate-add-not-allowed", "deviate-unknown-target"}
+	"deviate-add-existing", "deviate-delete-missing", "deviate-delete-wrong-value", "deviate-replace-missing", "not-supported-plus-other", "deviate-add-not-allowed", "deviate-unknown-target", "deviate-replace-not-allowed"}
 
 func leaf(name string) *sg.Node {
 	return &sg.Node{Kind: "leaf", Name: name, Type: &sg.TypeSpec{Name: "string"}}
@@ -518,6 +518,18 @@ func buildIllegal(kind string, sub int, legal bool) []*sg.Mod {
 		}
 		dev.Deviations = []*sg.Deviation{{Target: tpath + "/m0:t", Deviates: []sg.Deviate{{Kind: "add", Stmts: []string{st}}}}}
 		mods = append(mods, dev)
+	case "deviate-replace-not-allowed":
+		// only type, units, default, config, mandatory, min-elements and max-elements can be replaced; the target has
+		// one of each of the others, so that "nothing there to replace" is not the reason for the refusal
+		target.Desc, target.Ref, target.Status = "the target", "RFC 0000", "deprecated"
+		target.When = "../anchor = 'x'"
+		top.Kids = append(top.Kids, leaf("anchor"))
+		st := []string{`description "other";`, `reference "other";`, `status obsolete;`, `when "../anchor = 'y'";`}[v(4)]
+		if legal {
+			st = `units "hours";`
+		}
+		dev.Deviations = []*sg.Deviation{{Target: tpath + "/m0:t", Deviates: []sg.Deviate{{Kind: "replace", Stmts: []string{st}}}}}
+		mods = append(mods, dev)
 	case "deviate-unknown-target":
 		tg := tpath + []string{"/m0:nosuch", "/m0:t/m0:t", "/mdev:t"}[v(3)]
 		if legal {
@@ -551,7 +563,7 @@ var illegalProp = fw.Register(&fw.Prop[IllegalCase]{
 	ID: "C14", Name: "illegal",
 	Rule: "illegal constructions (kind x variation: nesting of the construction 0-2 levels deep through containers, lists and choice/case, own-prefix spelling of references, order and kind of the deviates), each with a legal twin that differs in one statement: config true under config false (direct, deep, through a grouping), status strengthened below a weaker parent, " +
 		"a current/deprecated definition referencing a more obsolete typedef / grouping / feature / identity of its own module, a current/deprecated refine, uses-augment or augment whose path names a more obsolete node of its own module (as last or inner element), deviate add of an existing single-instance property, delete of a missing or differently valued " +
-		"property, replace of a missing property, not-supported next to another deviate, a property not allowed on the target, an unknown target; oracle: the twin compiles, the illegal variant is rejected",
+		"property, replace of a missing property, replace of a property that cannot be replaced (description, reference, status, when), not-supported next to another deviate, a property not allowed on the target, an unknown target; oracle: the twin compiles, the illegal variant is rejected",
 	Gen: func(t *rapid.T) IllegalCase {
 		return IllegalCase{Kind: illegalKinds[rapid.IntRange(0, len(illegalKinds)-1).Draw(t, "kind")], Sub: rapid.IntRange(0, 9999).Draw(t, "sub")}
 	}, Check: checkIllegal,
